@@ -14,8 +14,11 @@ import (
 // bound 1): two accesses of library code that no synchronisation of the library orders are reported.
 func RaceWorker(c *evid.Ctx) {
 	var items []racepass.Item
-	for _, s := range cscens(false) {
-		items = append(items, racepass.Item{Name: s.String(), Sc: s.scenario(), Cfg: dfs.Config{Preemptions: 1, Faults: 0, StepCap: 6000, MaxExec: 20000}})
+	for i, s := range cscens(false) {
+		if s.newWait == 0 && i%4 != 2 {
+			continue // every fourth scenario, and all reconfiguration scenarios
+		}
+		items = append(items, racepass.Item{Name: s.String(), Sc: s.scenario(), Cfg: dfs.Config{Preemptions: 1, Faults: 0, StepCap: 6000, MaxExec: 6000}})
 	}
 	found := racepass.Worker(c, items)
 	var keys []string
